@@ -402,6 +402,76 @@ pub fn sweep(quick: bool) -> SweepResult {
     merge(&mut total, run_requests(reqs, Duration::from_secs(20)));
     bounds.push(json!({"family": "tall-diagnostics", "heights": format!("1..={}", heights.last().unwrap()), "start_lines": starts, "kinds": 3, "compilations": n4}));
 
+    // family 5: type shapes x accesses.  A value of a base type (struct, array, slice, enum variant) is wrapped by every chain
+    // of <= 3 (quick 2) wrappers out of {distinct, ^, ^mut, ?}, and the result is used by one of a fixed menu of accesses
+    // (field, .len, index, deref, assignment through it, .try, comparison, call).  Most combinations are ill-typed: the
+    // compiler has to say so, or build the program - never crash.
+    let mut reqs = Vec::new();
+    let bases: &[(&str, &str, &str)] = &[
+        ("struct", "T0 :: struct { x: i32, a: [2]i32 };", "v0 : T0 = T0.{ x = 3, a = i32.[4, 5] };"),
+        ("array", "T0 :: [3]i32;", "v0 : T0 = i32.[1, 2, 3];"),
+        ("slice", "T0 :: []i32;", "arr := i32.[1, 2, 3]; v0 : T0 = arr;"),
+        ("variant", "E :: enum { A: i32, B };\nT0 :: E.A;", "v0 : T0 = E.A.(5);"),
+    ];
+    const WRAPS: [&str; 4] = ["distinct", "ptr", "ptrmut", "opt"];
+    let accesses: &[&str] = &[
+        "r := V.x;", "r := V.a[1];", "r := V.len;", "r := V[1];", "r := V^;", "V.x = 1;", "V[1] = 1;", "r := V.try;", "r := V == V;",
+        "r := V();", "r := V.ptr;", "r := V^.x;", "r := V^^;", "r := i32.(V);", "r := #unwrap(V);", "switch q in V { _ => {} }",
+    ];
+    let max_depth = if quick { 2 } else { 3 };
+    let mut chains: Vec<Vec<usize>> = vec![vec![]];
+    let mut frontier: Vec<Vec<usize>> = vec![vec![]];
+    for _ in 0..max_depth {
+        let mut next = Vec::new();
+        for c in &frontier {
+            for w in 0..WRAPS.len() {
+                let mut n = c.clone();
+                n.push(w);
+                next.push(n);
+            }
+        }
+        chains.extend(next.iter().cloned());
+        frontier = next;
+    }
+    for (_, decl0, val0) in bases {
+        for chain in &chains {
+            let mut decls = String::from(*decl0);
+            decls.push('\n');
+            let mut body = format!("    {val0}\n");
+            for (k, &w) in chain.iter().enumerate() {
+                let (prev, cur) = (k, k + 1);
+                match WRAPS[w] {
+                    "distinct" => {
+                        decls.push_str(&format!("T{cur} :: distinct T{prev};\n"));
+                        body.push_str(&format!("    v{cur} : T{cur} = T{cur}.(v{prev});\n"));
+                    }
+                    "ptr" => {
+                        decls.push_str(&format!("T{cur} :: ^T{prev};\n"));
+                        body.push_str(&format!("    v{cur} : T{cur} = ^v{prev};\n"));
+                    }
+                    "ptrmut" => {
+                        decls.push_str(&format!("T{cur} :: ^mut T{prev};\n"));
+                        body.push_str(&format!("    v{cur} : T{cur} = ^mut v{prev};\n"));
+                    }
+                    _ => {
+                        decls.push_str(&format!("T{cur} :: ?T{prev};\n"));
+                        body.push_str(&format!("    v{cur} : T{cur} = v{prev};\n"));
+                    }
+                }
+            }
+            let last = format!("v{}", chain.len());
+            for acc in accesses {
+                id += 1;
+                let text = format!("{decls}main :: () {{\n{body}    {}\n}}\n", acc.replace('V', &last));
+                reqs.push(request_for(id, &text, &core, true));
+            }
+        }
+    }
+    let n5 = reqs.len();
+    merge(&mut total, run_requests(reqs, Duration::from_secs(20)));
+    bounds.push(json!({"family": "type-shapes-x-accesses", "bases": bases.len(), "wrappers": WRAPS, "max_chain": max_depth, "chains": chains.len(),
+                       "accesses": accesses.len(), "compilations": n5}));
+
     SweepResult { acc: total, bounds }
 }
 
